@@ -87,3 +87,18 @@ extern "C" void h_cmulti_dec(void) {
   verif_observe((uint32_t)w.out[NE * NCOMP - 1]);
   w.done(); verif_reach();
 }
+
+// C06: the prediction decoders are functions of (table, corrections, transform bounds) only: two runs on the same inputs
+// give the same values although every fresh heap block holds different (arbitrary) bytes in the two runs
+template <class Dec>
+static void det() {
+  World w; w.init();
+  int32_t out2[NE * NCOMP];
+  for (int i = 0; i < NE * NCOMP; ++i) out2[i] = 0;
+  { Dec d(nullptr, w.tr, w.md); (void)d.Dec::ComputeOriginalValues(w.corr, w.out, NE * NCOMP, NCOMP, nullptr); }
+  { Dec d(nullptr, w.tr, w.md); (void)d.Dec::ComputeOriginalValues(w.corr, out2, NE * NCOMP, NCOMP, nullptr); }
+  for (int i = 0; i < NE * NCOMP; ++i) verif_assert(w.out[i] == out2[i], "decoding the same corrections twice gives the same values (no dependence on heap contents)");
+  w.done(); verif_reach();
+}
+extern "C" void h_multi_det(void) { det<MeshPredictionSchemeMultiParallelogramDecoder<int32_t, PredictionSchemeWrapDecodingTransform<int32_t>, LiteMD>>(); }
+extern "C" void h_pgram_det(void) { det<MeshPredictionSchemeParallelogramDecoder<int32_t, PredictionSchemeWrapDecodingTransform<int32_t>, LiteMD>>(); }
